@@ -3,7 +3,12 @@ usage: tools/seed_meta.py <seed id> <property> <round> [needs_to_manifest text]"
 import json, os, re, sys
 sid, prop, rnd = sys.argv[1], sys.argv[2], int(sys.argv[3])
 d = os.path.join(os.path.dirname(os.path.dirname(os.path.abspath(__file__))), "seeded", sid)
-ev = open(os.path.join(d, "eval.txt")).read().splitlines()
+final = "eval2.txt" if os.path.exists(os.path.join(d, "eval2.txt")) else "eval.txt"
+ev = open(os.path.join(d, final)).read().splitlines()
+first = None
+if final == "eval2.txt" and os.path.exists(os.path.join(d, "eval.txt")):
+    f1 = [l for l in open(os.path.join(d, "eval.txt")).read().splitlines() if l.startswith(prop + ":")]
+    first = f1[-1] if f1 else None
 files = re.findall(r"^diff --git a/(\S+)", open(os.path.join(d, "patch.diff")).read(), re.M)
 summ = [l for l in ev if l.startswith(prop + ":")]
 viol = [l for l in ev if l.startswith("VIOLATION")]
@@ -18,6 +23,7 @@ meta = {
                      "demo": [l for l in ev if l.startswith("demo ")], "pytest": "423 passed, 22 skipped (run by the seeding agent in its worktree)",
                      "check_summary": summ[-1] if summ else None},
     "check_exit": int(m.group(1)) if m else None,
+    "first_evaluation_before_the_machinery_was_extended": first,
     "reported_obligations": [re.sub(r"^.*replays/", "", v.split("replay=")[1].split()[0]).replace(".json", "") for v in viol][:8],
     "undecided_units": [u[len("UNDECIDED "):][:160] for u in und][:4],
     "replayed_input_found": any("no-failing-input-found" not in v for v in viol),
